@@ -856,3 +856,78 @@ func zeroConfigRule(c *Ctx, r *Report) {
 			fname+" writes into a Config without making sure it has a fields object: a zero-valued Config as the destination of Merge / Unpack / a setter panics")
 	}
 }
+
+// unhashableKeyRule (R07t): a map whose key type is an interface hashes the dynamic value of every key it is given, and
+// the runtime panics ("hash of unhashable type") when that value is a slice, a map, a function or a struct or array
+// holding one. Comparing two interface values with == panics the same way. Where the key (or operand) is data — it
+// comes out of reflect's Interface(), or is an interface value of unknown origin — the operation needs a dominating
+// Comparable() test on the value or its type. Keys boxed from a static type that is comparable are fine.
+func unhashableKeyRule(c *Ctx, r *Report) {
+	r.Rule("R07t", "no map keyed by the empty interface is looked up or updated with a key of unknown dynamic type (from reflect Interface() or an interface value of unknown origin) without a dominating Comparable() test", 0)
+	n := 0
+	for _, fn := range c.SrcFuncs() {
+		if !c.InRepo(fn) {
+			continue
+		}
+		Instrs(fn, false, func(in ssa.Instruction) {
+			var m, key ssa.Value
+			switch x := in.(type) {
+			case *ssa.MapUpdate:
+				m, key = x.Map, x.Key
+			case *ssa.Lookup:
+				m, key = x.X, x.Index
+			default:
+				return
+			}
+			mt, ok := m.Type().Underlying().(*types.Map)
+			if !ok {
+				return
+			}
+			// the empty interface: a key type with methods (reflect.Type) is implemented by the library's own comparable types
+			if it, isIface := mt.Key().Underlying().(*types.Interface); !isIface || it.NumMethods() > 0 {
+				return
+			}
+			n++
+			unknown := ""
+			for _, src := range append([]ssa.Value{key}, Sources(key)...) {
+				switch y := src.(type) {
+				case *ssa.MakeInterface:
+					if !types.Comparable(y.X.Type()) {
+						unknown = "a value of the non-comparable type " + typeStr(y.X.Type())
+					}
+				case *ssa.Call:
+					if g := y.Call.StaticCallee(); g != nil && g.String() == "(reflect.Value).Interface" {
+						unknown = "the result of reflect.Value.Interface()"
+					}
+				case *ssa.Parameter, *ssa.UnOp, *ssa.Extract, *ssa.TypeAssert:
+					if _, isI := y.Type().Underlying().(*types.Interface); isI {
+						unknown = "an interface value of unknown dynamic type (" + y.Name() + ")"
+					}
+				}
+			}
+			if unknown == "" {
+				r.OK("R07t", c.FnName(fn), "key of an interface-keyed map", c.Pos(in.Pos()), "boxed from a comparable static type")
+				return
+			}
+			guarded := false
+			for _, cd := range DomConds(in.Block()) {
+				for _, part := range ExpandConds([]Cond{cd}) {
+					if call, isCall := part.V.(*ssa.Call); isCall && part.Truth {
+						name := ""
+						if call.Call.IsInvoke() {
+							name = call.Call.Method.Name()
+						} else if g := call.Call.StaticCallee(); g != nil {
+							name = g.Name()
+						}
+						if name == "Comparable" {
+							guarded = true
+						}
+					}
+				}
+			}
+			r.Check(guarded, "R07t", c.FnName(fn), "key of an interface-keyed map", c.Pos(in.Pos()), "under a Comparable() test",
+				"a map keyed by an interface type is given "+unknown+" as key without a Comparable() test: for a slice, a map or a struct holding one the runtime panics with \"hash of unhashable type\" — a list of objects or of lists in the configuration is enough")
+		})
+	}
+	r.Analysed["operations on interface-keyed maps"] = n
+}
